@@ -121,10 +121,13 @@ def rule_first(ctx: Ctx) -> RuleResult:
     gflow = flow_of(g.node)
     gcfg = cfg_of(g.node)
     s2d_calls = [n for n in own_nodes(g.node) if isinstance(n, ast.Call) and (dotted(n.func) or "").endswith("sid_to_dict")]
-    res.floor(len(s2d_calls), 2, "sid_to_dict calls in sid_to_sid")
+    res.floor(len(s2d_calls), 1, "sid_to_dict calls in sid_to_sid")
     for c in s2d_calls:
         tests = ctx.ef._dominating_tests(gcfg, c)
         uri = [(t, lab) for t, lab in tests if any(isinstance(x, ast.Constant) and x.value == ":" for x in ast.walk(t))]
+        if not uri and _merged_uri_call(ctx, g, gflow, gcfg, c):
+            res.ok("sid_to_sid (one call)", "sid_to_dict(<rest>, <prefix or None>): the type is the uri prefix when there is one, else None")
+            continue
         if not uri:
             res.violation([g.qualname, norm(c), "uri test"], f"sid_to_sid: `{norm(c)}` is not under the uri (':') test", g.relpath, c.lineno)
             continue
@@ -147,6 +150,17 @@ def rule_first(ctx: Ctx) -> RuleResult:
                 res.ok("sid_to_sid plain branch", "sid_to_dict(<string>) : natural first-match typing")
             else:
                 res.violation([g.qualname, norm(c), "natural typing"], f"sid_to_sid: the plain branch passes a type (`{norm(c)}`)", g.relpath, c.lineno)
+    # the '?' query is put aside before the uri prefix is looked for (a ':' inside a query value is not a uri separator)
+    qtests = [t for t in gcfg.nodes if t.kind == "test" and isinstance(t.ast, ast.If) and any(
+        isinstance(x, ast.Constant) and x.value == "?" for x in ast.walk(t.ast.test))]
+    utests = [t for t in gcfg.nodes if t.kind == "test" and isinstance(t.ast, ast.If) and any(
+        isinstance(x, ast.Constant) and x.value == ":" for x in ast.walk(t.ast.test))]
+    if qtests and utests:
+        if any(gcfg.path_exists(u.id, q_.id, exceptional=False) for u in utests for q_ in qtests):
+            res.violation([g.qualname, "uri before query"], "sid_to_sid looks for the 'type:' prefix before it puts the '?query' aside: a ':' in a "
+                                                            "query value is taken for a uri separator", g.relpath, utests[0].lineno)
+        else:
+            res.ok("sid_to_sid order", "the query is split off before the uri prefix is looked for")
     # the string stored is the input remainder, unchanged
     # (c) sid_conf_load: extrapolate -> pattern_replacing -> Resolver('sid', ...) on the same table, no re-ordering
     m = p.module("spil.conf.sid_conf_load")
@@ -200,6 +214,29 @@ def rule_first(ctx: Ctx) -> RuleResult:
         res.violation(["resolva.resolver.Resolver.resolve_first", "ordered first match"], "resolve_first is not an ordered first-match loop "
                                                                                           "over the templates", rf.relpath, rf.node.lineno)
     return res
+
+
+def _merged_uri_call(ctx: Ctx, g, gflow, gcfg, c: ast.Call) -> bool:
+    """sid_to_dict(string, _type) outside the uri test, where _type is None unless the uri branch set it to the prefix"""
+    if len(c.args) != 2 or c.keywords or not all(isinstance(a, ast.Name) for a in c.args):
+        return False
+    at = gflow.node_of(c).id
+    tdefs = list(gflow.defs_reaching(at, c.args[1].id))
+    sdefs = list(gflow.defs_reaching(at, c.args[0].id))
+    unp = [d for d in tdefs if d.kind == "unpack"]
+    rest = [d for d in tdefs if d.kind != "unpack"]
+    if len(unp) != 1 or not rest:
+        return False
+    if not all(d.kind == "assign" and isinstance(d.value, ast.Constant) and d.value.value is None for d in rest):
+        return False
+    u = unp[0]
+    if not (u.index == 0 and isinstance(u.value, ast.Call) and isinstance(u.value.func, ast.Attribute) and u.value.func.attr == "split"
+            and u.value.args and norm(u.value.args[0]) == "':'"):
+        return False
+    # the string handed over is the remainder of that very split wherever the prefix was taken
+    return any(d.kind == "unpack" and d.value is u.value and d.index == 1 for d in sdefs) or any(
+        d.kind == "unpack" and d.index == 0 and any(x.kind == "unpack" and x.value is u.value and x.index == 1
+                                                     for x in gflow.defs_reaching(d.node, c.args[0].id)) for d in sdefs)
 
 
 def _unpack_def(flow, e: ast.AST, at: int):
